@@ -258,7 +258,7 @@ class LocalModelDirectoryDatabaseTransaction(ModelTransaction):
                 datainfo = model.datainfo.replace(path=curdi.path)
                 model = model.replace(datainfo=datainfo)
         else:
-            h_dir.mkdir(parents=True, exist_ok=True)
+            datasets_path.mkdir(parents=True, exist_ok=True)
 
             highest = 0
             for file in datasets_path.iterdir():
@@ -271,18 +271,21 @@ class LocalModelDirectoryDatabaseTransaction(ModelTransaction):
             dataset_basename = f'data{highest + 1}'
             dataset_filename = f'{dataset_basename}.csv'
 
-            # NOTE: Create the index file at .datasets/.hash/<hash>/<dataset_filename>
-            index_path = h_dir / dataset_filename
-            index_path.touch()
-
             data_path = path_absolute(datasets_path / dataset_filename)
             datainfo = model.datainfo.replace(path=data_path)
             model = model.replace(datainfo=datainfo)
             model = write_csv(model, path=data_path, force=True)
 
-            # NOTE: Write datainfo last so that we are "sure" dataset is there
-            # if datainfo is there
+            # NOTE: Write datainfo after the dataset so that we are "sure" dataset
+            # is there if datainfo is there
             model.datainfo.to_json(datasets_path / (dataset_basename + '.datainfo'))
+
+            # NOTE: Create the index file at .datasets/.hash/<hash>/<dataset_filename>
+            # last: its presence promises that both files above exist, so an
+            # interrupted store must not leave it behind.
+            h_dir.mkdir(parents=True, exist_ok=True)
+            index_path = h_dir / dataset_filename
+            index_path.touch()
 
         # NOTE: Write the model
         model_path.mkdir(exist_ok=True)
